@@ -500,6 +500,28 @@ func init() {
 				}, false)
 				c.check(ok, R, fname(f), "element = uri.String()", ap.Pos(), "(*url.URL).String of every certificate URI", "a certificate URI is rendered as "+short(org(cc.Call.Args[1]))+" before it is compared with the constraint: Redacted / Path / Host forms make different URIs equal and the exact one unequal")
 			}
+			// or a pre-sized slice filled by index
+			for _, b := range f.Blocks {
+				for _, in := range b.Instrs {
+					st, isSt := in.(*ssa.Store)
+					if !isSt {
+						continue
+					}
+					ia, isIA := st.Addr.(*ssa.IndexAddr)
+					if !isIA {
+						continue
+					}
+					if _, isMk := resolve(ia.X, st).(*ssa.MakeSlice); !isMk {
+						continue
+					}
+					n++
+					ok := false
+					if k, isCall := resolve(st.Val, st).(*ssa.Call); isCall && calleeName(k) == "(*net/url.URL).String" && org(k.Call.Args[0]) == "p0[*]" && wholeSliceIndex(ia) {
+						ok = true
+					}
+					c.check(ok, R, fname(f), "element = uri.String()", st.Pos(), "(*url.URL).String of every certificate URI", "a certificate URI is rendered as "+short(org(st.Val))+" before it is compared with the constraint")
+				}
+			}
 			c.check(n == 1, R, fname(f), "one append per URI", f.Pos(), "1", fmt.Sprintf("%d appends", n))
 		}})
 		p.Explanation += " (R-C07-8) urisToStrings renders every certificate URI with (*url.URL).String."
